@@ -456,24 +456,30 @@ macro_rules! pay_uuid_fmt {
 }
 pay_uuid_fmt!(uuid::fmt::Braced, braced; uuid::fmt::Hyphenated, hyphenated; uuid::fmt::Simple, simple; uuid::fmt::Urn, urn);
 
-fn ipnet(id: u128) -> Option<ipnetwork::IpNetwork> {
+/// id: 2 * address (IPv4) or 2 * address + 1 (IPv6); k = 0: the full-length prefix, k > 0: prefix length k - 1
+/// (host bits may be set: 192.168.1.5/24 is a value of its own)
+fn ipnet(id: u128, k: u32) -> Option<ipnetwork::IpNetwork> {
     if id % 2 == 0 {
         let a = u32::try_from(id / 2).ok()?;
-        Some(ipnetwork::IpNetwork::V4(ipnetwork::Ipv4Network::new(std::net::Ipv4Addr::from(a), 32).ok()?))
+        let p = if k == 0 { 32 } else { u8::try_from(k - 1).ok()? };
+        Some(ipnetwork::IpNetwork::V4(ipnetwork::Ipv4Network::new(std::net::Ipv4Addr::from(a), p).ok()?))
     } else {
-        Some(ipnetwork::IpNetwork::V6(ipnetwork::Ipv6Network::new(std::net::Ipv6Addr::from(id / 2), 128).ok()?))
+        let p = if k == 0 { 128 } else { u8::try_from(k - 1).ok()? };
+        Some(ipnetwork::IpNetwork::V6(ipnetwork::Ipv6Network::new(std::net::Ipv6Addr::from(id / 2), p).ok()?))
     }
 }
 impl Pay for ipnetwork::IpNetwork {
     fn parse(tok: &str) -> Self {
-        ipnet(split_id(tok).0).expect("ip network")
+        let (id, k) = split_id(tok);
+        ipnet(id, k).expect("ip network")
     }
     fn show(&self) -> String {
-        let id = match self {
-            ipnetwork::IpNetwork::V4(n) => u32::from(n.ip()) as u128 * 2,
-            ipnetwork::IpNetwork::V6(n) => u128::from(n.ip()) * 2 + 1,
+        let (id, full) = match self {
+            ipnetwork::IpNetwork::V4(n) => (u32::from(n.ip()) as u128 * 2, 32),
+            ipnetwork::IpNetwork::V6(n) => (u128::from(n.ip()) * 2 + 1, 128),
         };
-        checked(join_id(id, 0), self, ipnet(id))
+        let k = if self.prefix() == full { 0 } else { self.prefix() as u32 + 1 };
+        checked(join_id(id, k), self, ipnet(id, k))
     }
 }
 fn mac(id: u128) -> mac_address::MacAddress {
